@@ -3,6 +3,7 @@
 package otr3
 
 import (
+	cryptorand "crypto/rand"
 	"runtime"
 	"sort"
 	"bytes"
@@ -113,6 +114,13 @@ func c20Script(kind int) []verifEv {
 }
 
 func c20World(seed int64, kind int) *verifWorld {
+	if kind == 3 {
+		// a pair that draws from the system's randomness source, as conversations do when the application sets none
+		// (not reproducible: used where only package-level state is compared)
+		w := verifNewPair(verifPairCfg{Seed: seed + 3, PolA: verifParsePol("3e"), PolB: verifParsePol("3e")})
+		w.P[0].C.Rand, w.P[1].C.Rand = cryptorand.Reader, cryptorand.Reader
+		return w
+	}
 	switch kind % 3 {
 	case 0:
 		return verifNewPair(verifPairCfg{Seed: seed + int64(kind), PolA: verifParsePol("3e"), PolB: verifParsePol("3e")})
